@@ -244,12 +244,19 @@ VerdictCases ==
   \cup {Plain("gen", "generate", "negative", "-", "POST", n) : n \in NegKinds}
 ProbeCases == {Plain("gen", "generate", "negative", "-", "POST", "body"), Plain("gen", "generate", "positive", "-", "POST", "-")}
 Secs == {"header", "bearer", "basic", "query", "cookie"}
+(* where the credentials of the request come from: nowhere; made up by the generator; the user's own (command line), next to a made-up
+   value in the case (the default flow) / with generation of security parameters switched off / header name spelled in lower case /
+   given as --set-header *)
 SrcsOf(sec) == {"absent", "generated", "explicit"}
-                 \cup (IF sec \in {"header", "bearer"} THEN {"explicit-lc"} ELSE {})     \* the same header, spelled in lower case
-                 \cup (IF sec = "header" THEN {"explicit-override"} ELSE {})             \* --set-header instead of --header
+                 \cup (IF sec # "query" THEN {"explicit-nogen"} ELSE {})
+                 \cup (IF sec \in {"header", "bearer"} THEN {"explicit-lc"} ELSE {})
+                 \cup (IF sec = "header" THEN {"explicit-override"} ELSE {})
+AllSrcs == {"absent", "generated", "explicit", "explicit-nogen", "explicit-lc", "explicit-override"}
 AuthCases == {MkCase("gen", "generate", "positive", "-", "POST", "-", sec, decl, src) :
-                sec \in Secs, decl \in {"op", "global", "cleared"}, src \in {"absent", "generated", "explicit", "explicit-lc", "explicit-override"}}
-CasesOf(sel) == CASE sel.slice = "sel" -> ProbeCases
+                sec \in Secs, decl \in {"op", "global", "cleared"}, src \in AllSrcs}
+(* slice "sel": the engine configuration of EVERY command line is compared; two probe cases are also executed (all command lines in
+   the thorough tier, those without status lists in the quick tier - status lists do not change the run set) *)
+CasesOf(sel) == CASE sel.slice = "sel" -> IF Thorough \/ (sel.pdaSt = <<>> /\ sel.ndrSt = <<>>) THEN ProbeCases ELSE {}
                   [] sel.slice = "verdict" -> VerdictCases
                   [] OTHER -> {k \in AuthCases : k.src \in SrcsOf(k.sec)}
 
@@ -323,6 +330,6 @@ Sanity == /\ TypeOK /\ NotSelectedNeverFails /\ ExclusionWins /\ AllSelectsEvery
 (* ------------------------------------------------------------------ export *)
 Export == IF kase = NoCase THEN PrintT(<<"SEL", ToJson([sel |-> sel, run |-> ExpectedRun(sel), cfg |-> ConfigOf(sel), feat |-> SelClass(sel)])>>)
           ELSE IF ~Live THEN TRUE
-          ELSE PrintT(<<"CASE", ToJson([sel |-> sel, kase |-> kase, resp |-> resp, exp |-> exp, letters |-> Letters(exp),
+          ELSE PrintT(<<"CASE", ToJson([sel |-> sel, kase |-> kase, resp |-> resp, exp |-> exp, letters |-> [c \in Judged |-> L(c)],
                                         feat |-> Features(sel, kase, resp)])>>)
 =============================================================================
